@@ -21,6 +21,7 @@
 -/
 import IbcVerif.Model.Ics20
 import IbcVerif.Lemmas.Ics20ConserveRun
+import IbcVerif.Lemmas.Ics20Pfm
 namespace IbcVerif.C30
 open IbcVerif IbcVerif.Xfer IbcVerif.Ics20
 
@@ -155,9 +156,9 @@ theorem native_supply_constant (cfg : Config) (w : World) (op : Op) (c : Nat) (d
       · rfl
       · exact hrefund href
     · rw [hsame]
-  | timeout p =>
+  | timeout p oc =>
     simp only [opChain] at hc'; subst hc'
-    rcases step_timeout_cases cfg w p with ⟨ch', hto, hstep⟩ | ⟨hsame, _⟩
+    rcases step_timeout_cases cfg w p oc with ⟨ch', hto, hstep⟩ | ⟨hsame, _⟩
     · rw [hstep]
       simp only [World.setChain, if_true]
       exact hrefund (timeoutPacket_ok hto)
@@ -309,9 +310,9 @@ theorem credit_is_matched (cfg : Config) (w : World) (op : Op) (c : Nat) (a : Ad
       · omega
       · exact hrefund href hgt
     · rw [hsame] at hgt; omega
-  | timeout p =>
+  | timeout p oc =>
     simp only [opChain] at hc'; subst hc'
-    rcases step_timeout_cases cfg w p with ⟨ch', hto, hstep⟩ | ⟨hsame, _⟩
+    rcases step_timeout_cases cfg w p oc with ⟨ch', hto, hstep⟩ | ⟨hsame, _⟩
     · rw [hstep] at hgt ⊢
       simp only [World.setChain, if_true] at hgt ⊢
       exact hrefund (timeoutPacket_ok hto) hgt
@@ -335,6 +336,79 @@ theorem credit_is_matched (cfg : Config) (w : World) (op : Op) (c : Nat) (a : Ad
         exact hmove _ _ _ _ _ _ hn hbal hgt
       · simp only at hgt; omega
 
+/-! ### packet-forward-middleware: which refund sequences keep the equation
+
+  PFM's refund moves (`Model/Ics20Pfm.lean`) are not conservation-preserving on their own — they undo a
+  receive that the ledger has booked as successful.  They are when *paired with the forward they undo
+  and the receive that funded it*: on the intermediate chain ICS-20 receives P1 over `rc` crediting PFM's
+  override receiver, the override receiver forwards the received token with an ordinary `MsgTransfer`
+  (packet P2 over `fc`), P2 fails (error acknowledgement, or timeout with no retries left) and, instead of
+  ICS-20's refund of P2, PFM runs its moves and answers P1 with an error acknowledgement.  In ledger
+  terms the settlement (i) applies `pfmRefund`, (ii) gives P2 its terminal outcome, (iii) re-records P1's
+  receive as failed, so that P1 counts as in flight again until its sender is refunded. -/
+
+/-- the world after PFM settled the failed forward P2 of the received packet P1 -/
+def pfmSettle (w : World) (p1 p2 : Packet) (ch' : Chain) : World :=
+  { chains := (w.setChain p2.srcChain ch').chains, sent := w.sent,
+    recvd := (p1, false) :: w.recvd.filter (fun e => e.1 != p1),
+    acked := w.acked, timedOut := p2 :: w.timedOut }
+
+/-- FULL statement (not proved here): the settlement of a failed forward preserves the ICS-20 invariant
+    of every channel-end pair.  Hypotheses: P1 was received successfully on the intermediate chain and
+    has no terminal outcome yet; P2 is still in flight, was sent from that chain by P1's receiver (the
+    override receiver), and carries exactly the token and amount P1's receive credited. -/
+def pfm_settlement_conserves_full : Prop :=
+  ∀ (cfg : Config) (w : World) (p1 p2 : Packet) (ch' : Chain), Assm cfg → Inv cfg w →
+    p1 ∈ w.sent → (p1, true) ∈ w.recvd → p1 ∉ w.acked → p1 ∉ w.timedOut →
+    p2 ∈ w.sent → pending w p2 = true → p2.srcChain = p1.dstChain →
+    p2.data.amount = p1.data.amount →
+    extract p2.data.denom = recvToken transferPort p1.srcChan transferPort p1.dstChan p1.data.denom →
+    (∀ a, cfg.decode p1.data.receiver = some a → cfg.decode p2.data.sender = some a) →
+    pfmRefund cfg (w.chains p2.srcChain) transferPort p2.srcChan transferPort p1.dstChan
+      (extract p2.data.denom) p2.data.amount = .ok ch' →
+    Conserve cfg (pfmSettle w p1 p2 ch')
+
+/-- **Partial (proved): the failed hop leaves no trace on the intermediate chain.**  Frame law: whatever
+    else happens in between, the changes made by (receive of P1 crediting the override receiver `I`) +
+    (forward of the received token by `I`) + (PFM's refund moves) cancel on every account and coin, on
+    every supply and on every tracked-escrow entry — in all four branch combinations (unescrow/mint ×
+    escrow/burn), including the bounce-back case repaired by f970a92.  Together with (ii) and (iii) above
+    this returns every term of `escrow_voucher_balance` to its value before P1 was received, which is the
+    content of `pfm_settlement_conserves_full`; what is not mechanised is the bookkeeping of the two
+    in-flight sums under the simultaneous status change of P1 and P2. -/
+theorem pfm_settlement_partial (cfg : Config) (c : Nat) (ch0 ch1 ch1' ch2 ch2' ch3 : Chain)
+    (data : PacketData) (sc rc fc : Str) (I : Addr)
+    (hrecv : onRecvPacket cfg c ch0 data transferPort sc transferPort rc = .ok ch1)
+    (hI : cfg.decode data.receiver = some I)
+    (hunw : (extract data.denom).hasPrefix transferPort sc = true →
+        (recvToken transferPort sc transferPort rc data.denom).hasPrefix transferPort rc = false)
+    (hfwd : sendTransfer cfg c ch1' transferPort fc (recvToken transferPort sc transferPort rc data.denom) data.amount I = .ok ch2)
+    (hpfm : pfmRefund cfg ch2' transferPort fc transferPort rc (recvToken transferPort sc transferPort rc data.denom) data.amount = .ok ch3)
+    (hI1 : I ≠ cfg.escrowAddr transferPort fc) (hI2 : I ≠ cfg.escrowAddr transferPort rc) :
+    (∀ a x, ch1.bank.bal a x + ch2.bank.bal a x + ch3.bank.bal a x =
+            ch0.bank.bal a x + ch1'.bank.bal a x + ch2'.bank.bal a x) ∧
+    (∀ x, ch1.bank.supply x + ch2.bank.supply x + ch3.bank.supply x =
+          ch0.bank.supply x + ch1'.bank.supply x + ch2'.bank.supply x) ∧
+    (∀ x, ch1.totalEscrow x + ch2.totalEscrow x + ch3.totalEscrow x =
+          ch0.totalEscrow x + ch1'.totalEscrow x + ch2'.totalEscrow x) :=
+  pfm_refund_inverts_hop hrecv hI hunw hfwd hpfm hI1 hI2
+
+/-- PFM's refund moves never touch the supply of a native coin either: they mint / burn vouchers only -/
+theorem pfm_refund_native_supply_constant (cfg : Config) (ch ch' : Chain) (fp fc rp rc : Str) (D : Denom) (n : Nat)
+    (hp : pfmRefund cfg ch fp fc rp rc D n = .ok ch') (d : Str) (hd : ibcSlash.isPrefixOf d = false) :
+    ch'.bank.supply d = ch.bank.supply d := by
+  have hne : ∀ (p c : Str), D.hasPrefix p c = true → d ≠ D.ibcDenom cfg.hashHex := by
+    intro p c h e
+    have ht : D.trace ≠ [] := by intro e'; simp [Denom.hasPrefix, e'] at h
+    have := voucher_coin_prefix cfg.hashHex D ht
+    rw [← e, hd] at this; cases this
+  obtain ⟨_, _, _, hb⟩ := pfmRefund_ok hp
+  rcases hb with ⟨_, _, _, _, hs, _⟩ | ⟨_, h2, _, _, _, _, hs, _⟩ | ⟨h1, _, _, hs, _⟩ | ⟨_, _, rfl⟩
+  · rw [hs]
+  · rw [hs]; simp [hne _ _ h2]
+  · rw [hs]; simp [hne _ _ h1]
+  · rfl
+
 /-- non-vacuity: two chains joined by `channel-0` ↔ `channel-1`; a user escrows 5 `uatom`, the
     counterparty mints the voucher: escrow 5 = voucher supply 5, nothing in flight. -/
 example :
@@ -357,6 +431,50 @@ example :
     (w₂.chains 1).bank.supply ("ibc/".toList ++ "transfer/channel-1/uatom".toList) = 5 ∧
     (w₂.chains 1).bank.bal "v".toList ("ibc/".toList ++ "transfer/channel-1/uatom".toList) = 5 ∧
     (w₂.chains 0).bank.supply "uatom".toList = 10 := by
+  decide
+
+/-- non-vacuity of the packet-forward statements: A sends 5 `uatom` to B for the override receiver `i`, `i`
+    forwards the voucher over `channel-2`, the forward fails and PFM settles.  On B the voucher is burnt out of
+    the forward channel's escrow again (supply, escrow and tracked total back to 0), and in the settled
+    world A's escrow of 5 is matched by 0 vouchers + 5 in flight (P1 awaits its error acknowledgement). -/
+example :
+    let cfg : Config :=
+      { hashHex := (fun s => s)
+        decode := (fun s => some s)
+        blocked := (fun _ _ => false)
+        moduleAddr := "module".toList
+        escrowAddr := (fun p c => "esc:".toList ++ p ++ c)
+        peer := (fun c id => if c = 0 ∧ id = "channel-0".toList then some (1, "channel-1".toList)
+                  else if c = 1 ∧ id = "channel-1".toList then some (0, "channel-0".toList)
+                  else if c = 1 ∧ id = "channel-2".toList then some (2, "channel-3".toList)
+                  else if c = 2 ∧ id = "channel-3".toList then some (1, "channel-2".toList) else none)
+        hasChannel := (fun _ _ _ => true) }
+    let ch : Chain := ⟨⟨fun a d => if a = "u".toList ∧ d = "uatom".toList then 10 else 0, fun d => if d = "uatom".toList then 10 else 0⟩, fun _ => 0, [], true, true⟩
+    let w : World := ⟨fun _ => ch, [], [], [], []⟩
+    let v : Str := "ibc/".toList ++ "transfer/channel-1/uatom".toList
+    let m1 : MsgTransfer := ⟨"transfer".toList, "channel-0".toList, "uatom".toList, 5, "u".toList, "i".toList, [], false, []⟩
+    let p1 : Packet := ⟨0, "transfer".toList, "channel-0".toList, 1, "transfer".toList, "channel-1".toList, 1, false,
+      ⟨"uatom".toList, 5, "u".toList, "i".toList, []⟩⟩
+    let p2 : Packet := ⟨1, "transfer".toList, "channel-2".toList, 2, "transfer".toList, "channel-3".toList, 1, false,
+      ⟨"transfer/channel-1/uatom".toList, 5, "i".toList, "z".toList, []⟩⟩
+    let D : Denom := ⟨[⟨"transfer".toList, "channel-1".toList⟩], "uatom".toList⟩
+    let w₂ := run cfg w [.transfer 0 "u".toList true m1 none 1, .recv p1]
+    -- the forward: `SendTransfer` by the override receiver over channel-2 (the toy hash is not hex, so the
+    -- coin-denomination lookup of `Transfer` is bypassed here)
+    let chF := (match sendTransfer cfg 1 (w₂.chains 1) "transfer".toList "channel-2".toList D 5 "i".toList with
+                | .ok c => c | .error _ => w₂.chains 1)
+    let w₃ : World := { w₂.setChain 1 chF with sent := p2 :: w₂.sent }
+    let r := pfmRefund cfg (w₃.chains 1) "transfer".toList "channel-2".toList "transfer".toList "channel-1".toList D 5
+    (w₃.chains 1).bank.supply v = 5 ∧ (w₃.chains 1).totalEscrow v = 5 ∧ w₃.sent = [p2, p1] ∧
+    (match r with | .ok _ => true | .error _ => false) = true ∧
+    (let ch' := (match r with | .ok c => c | .error _ => ch)
+     ch'.bank.supply v = 0 ∧ ch'.totalEscrow v = 0 ∧
+     ch'.bank.bal ("esc:".toList ++ "transfer".toList ++ "channel-2".toList) v = 0 ∧
+     (let w₄ := pfmSettle w₃ p1 p2 ch'
+      (w₄.chains 0).bank.bal ("esc:".toList ++ "transfer".toList ++ "channel-0".toList) "uatom".toList = 5 ∧
+      (w₄.chains 1).bank.supply v = 0 ∧
+      pendingSum w₄ (selF 0 "channel-0".toList ⟨[], "uatom".toList⟩) = 5 ∧
+      pendingSum w₄ (selB 1 "channel-1".toList ⟨[], "uatom".toList⟩) = 0)) := by
   decide
 
 end IbcVerif.C30
